@@ -28,6 +28,8 @@ func init() {
 		"go.select.rule": goSelectRule,
 		"go.select.one":  goSelectOne,
 		"selectmv.run":   exSelectMoving,
+		"pool.start":     exPoolStart,
+		"go.pool.order":  goPoolOrder,
 		"go.selectmv":    goSelectMoving,
 	}
 	for k, v := range waitExec {
@@ -62,7 +64,9 @@ type selPool struct {
 }
 
 func newSelPool(strategy string, n int) *selPool {
-	p, vs := pool.VerifNewPool(strategy, n)
+	// every pool is built through the REAL addConnection; the members arrive in reverse order of the configuration,
+	// so the order of p.conns is what addConnection's sort makes of it
+	p, vs := pool.VerifNewPoolArriving(strategy, arrivalFirst(n-1, n))
 	return &selPool{p: p, vs: vs}
 }
 
@@ -457,12 +461,114 @@ func genSelectMoving(g *h.G, out func(op string, args ...string)) {
 	}
 }
 
+// arrivalFirst: `first` arrives first (it becomes the initial best connection), then the others from the last to the
+// first of the configuration.
+func arrivalFirst(first, n int) []int {
+	var a []int
+	if first >= 0 && first < n {
+		a = append(a, first)
+	}
+	for i := n - 1; i >= 0; i-- {
+		if i != first {
+			a = append(a, i)
+		}
+	}
+	return a
+}
+
+func parseArrival(s string) []int {
+	var a []int
+	for _, x := range strings.Split(s, ".") {
+		a = append(a, atoi(x))
+	}
+	return a
+}
+
+// pool.start <arrival ids a.b.c>  ->  ok <member ids in p.conns order> best=<id>   (compared with PoolSM.startPool)
+func exPoolStart(a []string) string {
+	arr := parseArrival(a[0])
+	p, _ := pool.VerifNewPoolArriving(pool.FirstWorkingConnection, arr)
+	ids := p.VerifMemberIDs()
+	out := make([]string, len(ids))
+	for i, x := range ids {
+		out[i] = fmt.Sprint(x)
+	}
+	return fmt.Sprintf("ok %s best=%d", strings.Join(out, "."), p.VerifBestID())
+}
+
+// go.pool.order <strategy> <arrival>: pool start-up judged directly. Whatever the order of arrival: the members are
+// in configuration order, the first connection that arrived is the best one before any refresh (so BestMasterchainClient
+// and WaitMasterchainSeqno work at once), and a refresh over equally good members (all alive, same head, same rtt)
+// chooses the FIRST one of the configuration under both strategies.
+func goPoolOrder(a []string) string {
+	st, arr := a[0], parseArrival(a[1])
+	p, vs := pool.VerifNewPoolArriving(st, arr)
+	for i, id := range p.VerifMemberIDs() {
+		if id != i {
+			return fmt.Sprintf("FAIL order members=%v after arrival %v: not the configuration order", p.VerifMemberIDs(), arr)
+		}
+	}
+	if got := p.VerifBestID(); got != arr[0] {
+		return fmt.Sprintf("FAIL initial-best got=%d want=%d (the first connection that arrived) arrival=%v", got, arr[0], arr)
+	}
+	for _, v := range vs {
+		v.VerifSetAlive(true)
+		v.VerifSetRTT(5)
+		v.VerifSetHeadSilently(7)
+	}
+	// before the first refresh the pool already serves its callers
+	if cli, head, err := p.BestMasterchainClient(cancelled); err != nil || !vs[arr[0]].VerifIsClient(cli) || head.Seqno != 7 {
+		return fmt.Sprintf("FAIL start BestMasterchainClient before the first refresh: err=%v head=%d", err, head.Seqno)
+	}
+	res := make(chan string, 1)
+	go func() {
+		defer func() {
+			if r := recover(); r != nil {
+				res <- fmt.Sprintf("FAIL start WaitMasterchainSeqno before the first refresh panics: %v", r)
+			}
+		}()
+		if err := p.WaitMasterchainSeqno(context.Background(), 7, time.Second); err != nil {
+			res <- fmt.Sprintf("FAIL start WaitMasterchainSeqno(7) before the first refresh: %v", err)
+			return
+		}
+		res <- ""
+	}()
+	if r := <-res; r != "" {
+		return r
+	}
+	p.VerifUpdateBest()
+	if got := p.VerifBestID(); got != 0 {
+		return fmt.Sprintf("FAIL first-of-equals strategy=%s got=%d want=0 members=%v", st, got, p.VerifMemberIDs())
+	}
+	return "ok"
+}
+
+func genPoolStart(g *h.G, out func(op string, args ...string)) {
+	perms := [][]int{{0}, {0, 1}, {1, 0}, {0, 1, 2}, {2, 1, 0}, {1, 2, 0}, {2, 0, 1}, {3, 1, 0, 2}, {2, 3, 0, 1}, {0, 3, 2, 1}}
+	for k := 0; k < g.Scale(20, 200); k++ {
+		n := 1 + g.Rng.Intn(6)
+		perms = append(perms, g.Rng.Perm(n))
+	}
+	for _, pm := range perms {
+		xs := make([]string, len(pm))
+		for i, x := range pm {
+			xs[i] = fmt.Sprint(x)
+		}
+		arr := strings.Join(xs, ".")
+		out("pool.start", arr)
+		out("go.pool.order", pool.BestPingStrategy, arr)
+		out("go.pool.order", pool.FirstWorkingConnection, arr)
+		g.NonTrivial("start " + arr)
+	}
+}
+
 func genC13(g *h.G) {
 	var q []func()
 	collect := func(op string, args ...string) {
 		a := append([]string{}, args...)
 		q = append(q, func() { g.Emit(op, a...) })
 	}
+	genPoolStart(g, collect)
 	genSelectMoving(g, collect)
 	genWait(g, collect)
 	n := 0
